@@ -56,6 +56,11 @@ class Wire:
         if self.is_coincident(wire):
             self.coincidents.add(wire)
 
+            # both wires are the same physical edge: a curve defined
+            # by a block that was added later belongs to this one, too
+            if self.edge.kind == "line" and wire.edge.kind != "line":
+                self.edge = wire.edge
+
     def add_chop(self, chop: Chop) -> None:
         """Adds Chops to this Wire's Grading object"""
         self.grading.add_chop(chop)
